@@ -116,12 +116,37 @@ class CliOut:
 CLEAN_ENV_KEYS = ("MNEMONIC", "PASSWORD", "ACCOUNT_INDEX", "HD_PATH")
 
 
-def run_cli(binary, args, stdin=None, env=None, timeout=60):
+def run_cli(binary, args, stdin=None, env=None, timeout=60, stdin_chunks=None):
     e = env_with()
     for k in CLEAN_ENV_KEYS:
         e.pop(k, None)
     if env:
         e.update(env)
+    if stdin_chunks is not None:
+        # a slow producer: the input arrives in several bursts (short reads on the pipe)
+        import time
+        p = subprocess.Popen([binary] + list(args), stdin=subprocess.PIPE, stdout=subprocess.PIPE, stderr=subprocess.PIPE, env=e)
+        try:
+            for i, c in enumerate(stdin_chunks):
+                if i:
+                    time.sleep(0.25)
+                try:
+                    p.stdin.write(c)
+                    p.stdin.flush()
+                except BrokenPipeError:
+                    break
+            try:
+                p.stdin.close()
+            except BrokenPipeError:
+                pass
+            out = p.stdout.read()
+            err = p.stderr.read()
+            rc = p.wait(timeout=timeout)
+        except subprocess.TimeoutExpired:
+            p.kill()
+            return CliOut("timeout", None, b"", b"")
+        cls = "ok" if rc == 0 else "panic" if rc == 101 else "signal" if rc < 0 else "error"
+        return CliOut(cls, rc, out, err)
     try:
         p = subprocess.run([binary] + list(args), input=stdin if stdin is not None else b"",
                            capture_output=True, env=e, timeout=timeout)
@@ -144,4 +169,4 @@ def cli_map(binary, runs, workers=NCPU, timeout=60):
     if not runs:
         return []
     with ThreadPoolExecutor(max_workers=workers) as ex:
-        return list(ex.map(lambda r: run_cli(binary, r["args"], r.get("stdin"), r.get("env"), r.get("timeout", timeout)), runs))
+        return list(ex.map(lambda r: run_cli(binary, r["args"], r.get("stdin"), r.get("env"), r.get("timeout", timeout), r.get("stdin_chunks")), runs))
